@@ -184,6 +184,7 @@ def handle (args : List String) : String :=
           | .error (.invalid t _) => s!"invalid:{hex t}"
           | .error (.parser e) => s!"err:{perr e}")
     | _, _ => "bad-op"
+  | ["fldlist"] => ",".intercalate (Fields.registry.map (·.1))
   | ["fld", name, i] => match unhex i with
     | some input => (match Fields.run name input with
       | some (.ok (ser, j)) => s!"ok {hex ser} {String.ofList j.render}"
